@@ -133,7 +133,7 @@ def is_dynamic_expression(value: Any) -> bool:
         return False
 
     # Is not wrapped in quotes, or does not contain any tags
-    if not DYNAMIC_EXPR_RE.match(value):
+    if value[0] not in "'\"" or value[-1] != value[0] or not DYNAMIC_EXPR_RE.match(value):
         return False
 
     return True
